@@ -372,7 +372,9 @@ def run(ctx):
     ctx.assumptions += [
         "single-threaded use of one vector / manager (the classes are documented as not thread safe)",
         "calls respect the std::vector preconditions (index <= size, first <= last <= size, pop on non-empty, "
-        "swap only between equal allocators); arguments do not alias elements of the vector being modified",
+        "swap only between equal allocators); in generated histories arguments do not alias elements of the vector being "
+        "modified — aliasing arguments are the recorded finding oracle:contents:self-aliasing-argument, replayed from "
+        "corpus/C12/self_aliasing_argument.txt on every run (model ops pushself/insnself/empself reproduce the real behaviour)",
         "a workload 'fits' when neither a size it reaches nor an explicit reserve() exceeds the capacity already held",
     ]
     ctx.gen(["rvec"])
